@@ -48,6 +48,10 @@ func (s c01S) Iface(x fmt.Stringer) string       { return "iface" }
 func (s c01S) Two() (int, int)                   { return 1, 2 }
 func (s c01S) None()                             {}
 
+type c01Err struct{ msg string }
+
+func (e c01Err) Error() string { return e.msg } // value receiver: a nil *c01Err is an error value that cannot be asked
+
 type c01StructKey struct{ V string }
 
 func (s c01StructKey) String() string { return s.V }
@@ -68,6 +72,8 @@ func c01Universe(variant int) pongo2.Context {
 		"mm": map[string]any{"a": 1, "b": "two", "c": nil, "d": []int{1}}, "im": map[int]string{1: "one", 2: "two"}, "um": map[uint8]int{1: 1},
 		"am": map[any]any{"k": 1, 2: "v"}, "bm": map[bool]int{true: 1}, "fm": map[float64]int{1.5: 1}, "sm": map[c01StructKey]int{{"k"}: 1}, "nilmap": map[string]int(nil),
 		"istr": ZIntStr(5), "sstr": ZStructStr{"<ss>"}, "psstr": &ZPtrStr{"<ps>"}, "nilstr": (*ZPtrStr)(nil),
+		// typed nil pointers to types whose String() has a VALUE receiver (calling it through the nil pointer would panic)
+		"nilsstr": (*ZStructStr)(nil), "nilistr": (*ZIntStr)(nil), "nilskey": (*c01StructKey)(nil), "niltm": (*time.Time)(nil), "nilerr": (*c01Err)(nil),
 		"tm": zTime, "val": pongo2.AsValue("v"), "sval": pongo2.AsSafeValue("<sv>"), "nilval": (*pongo2.Value)(nil), "valnil": pongo2.AsValue(nil),
 		"fn": func(a int, b string) string { return fmt.Sprint(a, b) }, "fv": func(a ...int) int { return len(a) },
 		"fa": func(a any) any { return a }, "fe": func(a int) (int, error) {
@@ -106,7 +112,7 @@ var c01Names = func() []string {
 var c01Steps = []string{".Name", ".priv", ".In", ".PIn", ".Nilp", ".Any", ".M", ".F", ".privf", ".Hello", ".PHello", ".Var", ".Val", ".Iface", ".Two", ".None", ".A", ".b", ".List", ".0", ".1", ".5",
 	".99999999999", ".a", ".k", ".version", ".Counter", ".String", ".V", ".Year", ".UTC", ".Super", ".Parentloop", ".Ch"}
 
-var c01Lits = []string{"0", "1", "2", "5", "1.5", `"a"`, `""`, `"1:2"`, `"-1:"`, `":"`, `"%d"`, `"%s"`, `"%99999d"`, `"a,b"`, `"a,b,c,d"`, `"b"`, "true", "false", `"é"`, `"\\"`,
+var c01Lits = []string{"0", "1", "2", "5", "1.5", `"a"`, `""`, `"1:2"`, `"-1:"`, `":"`, `"%d"`, `"%s"`, `"%99999d"`, `"-2000000000"`, `"-40000000"`, `"-1001"`, "-2000000000", `"2000000000"`, `"a,b"`, `"a,b,c,d"`, `"b"`, "true", "false", `"é"`, `"\\"`,
 	// ready-made operand pairs of one kind (two random names rarely are): time comparisons, membership in structs and maps
 	"tm < tm", "tm >= tm", "tm == tm", "tm != tm", "tm > tm", "tm <= tm", `"Name" in s`, `"priv" in s`, "1 in im", `"k" in sm`, "nili in sm", "f in fm", "t in bm", "u8 in um", "s in sl", "nili in sl"}
 
